@@ -285,41 +285,31 @@ Section Shape.
     simpl in I. repeat (destruct I as [I|I]; [subst t; try discriminate; reflexivity|]). contradiction.
   Qed.
 
-  Lemma root_default_same : forall declared def,
-    starts_uu def = false ->
-    (declared = None -> has_object_named def S = false) ->
-    root_or_default declared def ts0 = declared.
-  Proof.
-    intros declared def U H. unfold root_or_default. destruct declared; auto.
-    unfold ts0. rewrite has_object_app. rewrite has_object_named_eq, H; auto. cbn [orb].
-    destruct (has_object def (base_scalars ++ base_meta_types)) eqn:E; auto.
-    apply base_no_root_object in E. congruence.
-  Qed.
+  (* with a schema definition no root is added by default name (fix root-operation-invented) *)
+  Lemma root_default_same : forall declared def ts, root_or_default true declared def ts = declared.
+  Proof. intros declared def ts. unfold root_or_default. destruct declared; auto. Qed.
 
   Lemma merged_types : s_types M = map (add_typename (match s_subscription S with Some n => n | None => [] end))
                                         (update_first (s_query S) add_introspection_fields ts0).
   Proof.
-    destruct (gen_ok_parts S GOK) as [_ [_ [_ [_ [_ [_ [_ RS]]]]]]].
-    unfold M, merge_base. fold ts0. rewrite has_query. cbn [s_types].
+    unfold M, merge_base, merge_base_doc. fold ts0. rewrite has_query. cbn [s_types].
     rewrite (root_default_same (s_subscription S) #"Subscription"); auto.
   Qed.
   Lemma merged_dirs : s_directives M = dds.
   Proof. reflexivity. Qed.
   Lemma merged_query : s_query M = s_query S.
   Proof.
-    unfold M, merge_base. fold ts0. rewrite has_query. cbn [s_query].
+    unfold M, merge_base, merge_base_doc. fold ts0. rewrite has_query. cbn [s_query].
     destruct (s_query S) eqn:E; auto. exfalso. apply query_nonempty. auto.
   Qed.
   Lemma merged_mutation : s_mutation M = s_mutation S.
   Proof.
-    destruct (gen_ok_parts S GOK) as [_ [_ [_ [_ [_ [_ [RM _]]]]]]].
-    unfold M, merge_base. fold ts0. rewrite has_query. cbn [s_mutation].
+    unfold M, merge_base, merge_base_doc. fold ts0. rewrite has_query. cbn [s_mutation].
     apply root_default_same; auto.
   Qed.
   Lemma merged_subscription : s_subscription M = s_subscription S.
   Proof.
-    destruct (gen_ok_parts S GOK) as [_ [_ [_ [_ [_ [_ [_ RS]]]]]]].
-    unfold M, merge_base. fold ts0. rewrite has_query. cbn [s_subscription].
+    unfold M, merge_base, merge_base_doc. fold ts0. rewrite has_query. cbn [s_subscription].
     apply root_default_same; auto.
   Qed.
 
@@ -465,7 +455,7 @@ Section Shape.
   Proof.
     destruct query_root as [tq [F [K I]]]. exists tq. split; auto.
     destruct (wf_parts S WF) as [_ [_ [_ [_ [_ [RM RS]]]]]].
-    unfold generate. fold M. fold idx. rewrite merged_dirs. fold dds.
+    unfold generate, generate_doc. change (merge_base_doc true S) with M. fold idx. rewrite merged_dirs. fold dds.
     rewrite merged_no_type_panic, merged_no_dir_panic. cbn [orb].
     rewrite generated_types, generated_dirs, merged_query, merged_mutation, merged_subscription.
     destruct (s_query S) eqn:Q. { exfalso. apply query_nonempty. auto. }
